@@ -91,6 +91,10 @@ def check_child(parent_seq, child, frozen, Sequence, respects_frozen=True):
         f = Sequence(cs).deltaMax()
         if abs(float(child.dmax) - float(f)) > 1e-12:
             bad.append("stale-dmax")
+    if getattr(child, "seqDeltaMax", None) is not None:
+        # a carried-over delta-max ARRANGEMENT must be the one a fresh object computes
+        if child.seqDeltaMax != Sequence(cs).deltaMax(True)[1]:
+            bad.append("stale-dmax-permutant")
     return bad
 
 
@@ -127,7 +131,14 @@ def eval_move(toks, state):
     install(seed)
     if kinds == ["api_shuffle"]:
         from localcider.sequenceParameters import SequenceParameters
-        sp = SequenceParameters(seq)
+        if seed % 4 == 0:
+            class Labelled(SequenceParameters):          # a user subclass with its own constructor signature
+                def __init__(self, sequence, label="x"):
+                    SequenceParameters.__init__(self, sequence)
+                    self.label = label
+            sp = Labelled(seq, "mine")
+        else:
+            sp = SequenceParameters(seq)
         if cached:
             sp.get_kappa()
         RecordingRandom.TAPE = []
@@ -150,6 +161,8 @@ def eval_move(toks, state):
             bad.append("parent-changed")
         return ("moves", [("shuffle", seq, child.get_sequence(), list(RecordingRandom.TAPE), bad)])
     obj = Sequence(seq)
+    if toks[5] == "3":
+        obj.deltaMax(True)          # the parent holds value AND arrangement
     if cached:
         if via_kappa:
             import io, contextlib
